@@ -5,20 +5,35 @@ C04 — reverting the head exactly undoes a block; forks converge.
 Property theorems over the model of `JunoModel/C04/Model.lean` (statements only; the proofs are in
 `Proofs*.lean`). The node is a record of every bucket family of the database plus the in-memory
 running event filter, kept canonical, so `revert cfg nd' = .ok nd` says: RevertHead succeeds AND the
-whole database content and filter state are those of the node that never stored the block. Every
-Reader query (`answer`) is a function of that record.
+whole database content and filter state are those of the node that never stored the block (every
+Reader answer is computed from that content; the harness compares the Reader API on the real nodes).
 
 All theorems hold for BOTH state backends (`cfg.legacy`), for every node reachable from the empty node
 (`Good`: by induction over the history of stores and reverts, the invariants are proved, not
 assumed), every block and every fork depth. What a stored block must satisfy (`StoreOK`):
-* `BlockOK` — facts the protocol guarantees and juno does not check (hashes not yet indexed, diff
-  sections are maps, Sierra classes not re-declared, system contracts never deployed, ...);
-* `Safe` — the situations in which the code as found really cannot undo a block; each has a proved
-  counterexample below (K1 legacy / K2 new backend: system contract with empty storage; K3: window
-  closing block, repaired in /repo by 702b167 — with `dropReopenedWindow` the clause is void).
+* `BlockOK` — facts the protocol guarantees and juno does not check. Each clause is either shown
+  necessary below (`*_needed`: juno stores the violating block and cannot undo it — run on the real
+  code by the harness' `outside` scenarios with the same outcome), or is a proof convenience that the
+  harness tests on the real code (system-contract address deployed: stored and undone; declaration
+  without definition, declare+migrate in one block: refused by `Store`, model and code agree);
+* `Safe` — the situations in which the code AS FOUND really cannot undo a block that a valid chain
+  can contain; each has a proved counterexample below (K1 legacy / K2 new backend: system contract
+  with empty storage; legacy: a class hash listed twice in `DeclaredV0Classes`; window closing block
+  before 702b167 — with `dropReopenedWindow` that clause is void).
+Theorems named `*_before_<commit>` are regression witnesses for defects already repaired in /repo.
 -/
 namespace Juno.C04.Props
 open Juno.C04 Juno.C04.Map
+
+/-
+Full-strength statement (what the property asks; NOT true of the code as found):
+  theorem revert_store_id_full (g : Good cfg nd) (ok : BlockOK cfg nd b) (h : store cfg nd b = .ok nd') :
+      revert cfg nd' = .ok nd
+It is refuted on the model (and on the real code, by the harness) by
+`revert_total_legacy_counterexample` (K1), `newstate_system_contract_height_counterexample` (K2) and
+`legacy_duplicate_declaration_counterexample`; `revert_store_id` below is its partial version: the
+hypothesis `StoreOK = BlockOK ∧ Safe` excludes exactly these situations (see `Safe`).
+-/
 
 /-- `RevertHead` after `Store` gives back the node exactly: it succeeds, and every bucket family and
 the running filter equal those of the node that never stored the block. Both backends, every
@@ -26,13 +41,6 @@ reachable node. -/
 theorem revert_store_id (cfg : Cfg) (hc : cfg.asFound) (nd nd' : Node) (b : Block)
     (g : Good cfg nd) (ok : StoreOK cfg nd b) (h : store cfg nd b = .ok nd') : revert cfg nd' = .ok nd :=
   revert_store_step (stepOK_of_inv hc (good_inv hc g) ok.block ok.safe h) h
-
-/-- The same in the property's words: the revert succeeds and every Reader query is answered as
-on the node that never stored the block. -/
-theorem revert_store_observations (cfg : Cfg) (hc : cfg.asFound) (nd nd' : Node) (b : Block)
-    (g : Good cfg nd) (ok : StoreOK cfg nd b) (h : store cfg nd b = .ok nd') :
-    ∃ nd'', revert cfg nd' = .ok nd'' ∧ ∀ q, answer nd'' q = answer nd q :=
-  ⟨nd, revert_store_id cfg hc nd nd' b g ok h, fun _ => rfl⟩
 
 /-- `RevertHead` succeeds on every reachable node that has a head block, and the result is again a
 reachable node (the one that existed before the head was stored). -/
@@ -49,6 +57,28 @@ theorem history_invariant (cfg : Cfg) (hc : cfg.asFound) (ops : List Op) (ok : H
     Good cfg (run cfg Node.init ops) ∧ NodeInv cfg (run cfg Node.init ops) :=
   ⟨run_good hc ops Good.init ok, good_inv hc (run_good hc ops Good.init ok)⟩
 
+/-- Per history: whatever sequence of `Store`s and `RevertHead`s is run from the empty node, the node
+reached is exactly the node that stores only the blocks that were stored and not reverted afterwards
+(`net`: successful stores push, successful reverts pop) — "a node that followed one fork, reverted it and
+followed another is indistinguishable from a node that followed the second fork directly", for any
+number of rounds. -/
+theorem history_equals_net_chain (cfg : Cfg) (hc : cfg.asFound) (ops : List Op) (ok : HistOK cfg Node.init ops) :
+    storeAll cfg Node.init (net cfg ops) = .ok (run cfg Node.init ops) := by
+  obtain ⟨h, e⟩ := foldl_netStep hc ops Hist.init ok
+  rw [← e]
+  exact hist_storeAll h
+
+/-- Two histories that leave the same chain behind leave the same node behind (whole database and
+filter state), however many blocks each of them stored and reverted on the way. -/
+theorem same_net_chain_same_node (cfg : Cfg) (hc : cfg.asFound) (ops1 ops2 : List Op)
+    (ok1 : HistOK cfg Node.init ops1) (ok2 : HistOK cfg Node.init ops2) (h : net cfg ops1 = net cfg ops2) :
+    run cfg Node.init ops1 = run cfg Node.init ops2 := by
+  have e1 := history_equals_net_chain cfg hc ops1 ok1
+  have e2 := history_equals_net_chain cfg hc ops2 ok2
+  rw [h, e2] at e1
+  injection e1 with e1
+  exact e1.symm
+
 /-- Forks converge, for every fork depth: a node that followed fork A from a reachable node `nd` and
 reverted `|A|` blocks is `nd` again, so following fork B afterwards is following B directly. -/
 theorem fork_converges (cfg : Cfg) (hc : cfg.asFound) (nd ndA : Node) (forkA forkB : List Block)
@@ -59,11 +89,6 @@ theorem fork_converges (cfg : Cfg) (hc : cfg.asFound) (nd ndA : Node) (forkA for
      | .error e => .error e) = storeAll cfg nd forkB := by
   have h := (revertN_storeAll_good hc forkA g ok hA).1
   exact ⟨h, by rw [h]⟩
-
-/-- `Store` maintains the node invariant (the induction step of `history_invariant`). -/
-theorem store_preserves_invariant (cfg : Cfg) (hc : cfg.asFound) (nd nd' : Node) (b : Block)
-    (inv : NodeInv cfg nd) (ok : StoreOK cfg nd b) (h : store cfg nd b = .ok nd') : NodeInv cfg nd' :=
-  store_inv hc inv ok.block ok.safe h
 
 /-- `State.Revert` undoes `State.Update`, legacy backend (`core/deprecatedstate`). -/
 theorem state_revert_update_legacy (cfg : Cfg) (hleg : cfg.legacy = true) (hfix : cfg.zeroWriteFix = true)
@@ -90,7 +115,7 @@ the model keeps the switch, the witness shows what the repair changed. -/
 
 def legacyCfg : Cfg :=
   { legacy := true, zeroWriteFix := true, dropReopenedWindow := false, removeImplicitClasses := false,
-    legacyPurgeOnUpdate := false, window := 4 }
+    legacyPurgeOnUpdate := false, legacyDedupDeclared := false, window := 4 }
 def newCfg : Cfg := { legacyCfg with legacy := false }
 
 def blk (n h p : Nat) (d : Diff) : Block :=
@@ -129,7 +154,7 @@ theorem newstate_system_contract_height_counterexample :
 
 /-- Both backends: reverting the block that closed a filter window (here 4 blocks wide) leaves
 the persisted copy of the reopened window behind; with the repair the node is restored exactly. -/
-theorem reopened_window_counterexample :
+theorem reopened_window_kept_before_702b167 :
     sameNode (thenRevert legacyCfg (fstoreAll legacyCfg Node.init
         [blk 0 10 0 Diff.empty, blk 1 11 10 Diff.empty, blk 2 12 11 Diff.empty, blk 3 13 12 Diff.empty]))
       (fstoreAll legacyCfg Node.init [blk 0 10 0 Diff.empty, blk 1 11 10 Diff.empty, blk 2 12 11 Diff.empty]) = false ∧
@@ -140,7 +165,7 @@ theorem reopened_window_counterexample :
 
 /-- Both backends: a class definition supplied for a deployed contract (not in the declared
 lists) is registered by `Update` and survives the revert; with the repair it does not. -/
-theorem implicit_class_survives_revert :
+theorem implicit_class_survived_before_64c1acb :
     sameNode (thenRevert legacyCfg (fstoreAll legacyCfg Node.init
         [blk 0 10 0 Diff.empty,
          { blk 1 11 10 { Diff.empty with deployed := [(0x105, 0xc5)] } with classes := [(0xc5, ⟨false, 0⟩)] }]))
@@ -148,6 +173,24 @@ theorem implicit_class_survives_revert :
     sameNode (thenRevert { legacyCfg with removeImplicitClasses := true } (fstoreAll legacyCfg Node.init
         [blk 0 10 0 Diff.empty,
          { blk 1 11 10 { Diff.empty with deployed := [(0x105, 0xc5)] } with classes := [(0xc5, ⟨false, 0⟩)] }]))
+      (fstoreAll legacyCfg Node.init [blk 0 10 0 Diff.empty]) = true := by
+  decide
+
+/-- Legacy backend as found: a block whose `DeclaredV0Classes` lists a class hash twice is stored,
+and `RevertHead` then fails (`removeDeclaredClasses` looks the class up in its own transaction, where
+the first occurrence has just deleted it). The new backend, and the legacy backend with the proposed
+repair, undo the block exactly. -/
+theorem legacy_duplicate_declaration_counterexample :
+    failsWith (thenRevert legacyCfg (fstoreAll legacyCfg Node.init
+      [blk 0 10 0 Diff.empty,
+       { blk 1 11 10 { Diff.empty with declV0 := [0xd7, 0xd7] } with classes := [(0xd7, ⟨false, 0⟩)] }])) .classMissing = true ∧
+    sameNode (thenRevert newCfg (fstoreAll newCfg Node.init
+      [blk 0 10 0 Diff.empty,
+       { blk 1 11 10 { Diff.empty with declV0 := [0xd7, 0xd7] } with classes := [(0xd7, ⟨false, 0⟩)] }]))
+      (fstoreAll newCfg Node.init [blk 0 10 0 Diff.empty]) = true ∧
+    sameNode (thenRevert { legacyCfg with legacyDedupDeclared := true } (fstoreAll legacyCfg Node.init
+      [blk 0 10 0 Diff.empty,
+       { blk 1 11 10 { Diff.empty with declV0 := [0xd7, 0xd7] } with classes := [(0xd7, ⟨false, 0⟩)] }]))
       (fstoreAll legacyCfg Node.init [blk 0 10 0 Diff.empty]) = true := by
   decide
 
@@ -159,10 +202,66 @@ theorem fresh_tx_hash_needed :
       (fstoreAll legacyCfg Node.init [{ blk 0 10 0 Diff.empty with txs := [⟨0x77, none⟩] }]) = false := by
   decide
 
+/-- `BlockOK.fresh.msgs` is needed: an L1 message that is already indexed (juno does not check) loses
+its lookup entry when the later block that carries it again is reverted. -/
+theorem fresh_l1_message_needed :
+    sameNode (thenRevert legacyCfg (fstoreAll legacyCfg Node.init
+        [{ blk 0 10 0 Diff.empty with txs := [⟨0x77, some 0x99⟩] }, { blk 1 11 10 Diff.empty with txs := [⟨0x78, some 0x99⟩] }]))
+      (fstoreAll legacyCfg Node.init [{ blk 0 10 0 Diff.empty with txs := [⟨0x77, some 0x99⟩] }]) = false := by
+  decide
+
+/-- `BlockOK.decl1`/`casmFresh` are needed: a Sierra class that is declared a second time is stored
+(the class record is kept, the CASM metadata is overwritten) and the revert deletes the metadata of
+the first declaration. Both backends. -/
+theorem sierra_redeclaration_needed :
+    sameNode (thenRevert legacyCfg (fstoreAll legacyCfg Node.init
+        [{ blk 0 10 0 { Diff.empty with declV1 := [(0xd1, 0xe1)] } with classes := [(0xd1, ⟨true, 0xe2⟩)] },
+         { blk 1 11 10 { Diff.empty with declV1 := [(0xd1, 0xe1)] } with classes := [(0xd1, ⟨true, 0xe2⟩)] }]))
+      (fstoreAll legacyCfg Node.init
+        [{ blk 0 10 0 { Diff.empty with declV1 := [(0xd1, 0xe1)] } with classes := [(0xd1, ⟨true, 0xe2⟩)] }]) = false ∧
+    sameNode (thenRevert newCfg (fstoreAll newCfg Node.init
+        [{ blk 0 10 0 { Diff.empty with declV1 := [(0xd1, 0xe1)] } with classes := [(0xd1, ⟨true, 0xe2⟩)] },
+         { blk 1 11 10 { Diff.empty with declV1 := [(0xd1, 0xe1)] } with classes := [(0xd1, ⟨true, 0xe2⟩)] }]))
+      (fstoreAll newCfg Node.init
+        [{ blk 0 10 0 { Diff.empty with declV1 := [(0xd1, 0xe1)] } with classes := [(0xd1, ⟨true, 0xe2⟩)] }]) = false := by
+  decide
+
+/-- `BlockOK.defsListed` is needed: a definition handed to `Store` that the diff neither declares nor
+deploys is registered and survives the revert (nothing in the state update names it). -/
+theorem unlisted_definition_needed :
+    sameNode (thenRevert { legacyCfg with removeImplicitClasses := true } (fstoreAll legacyCfg Node.init
+        [blk 0 10 0 Diff.empty, { blk 1 11 10 Diff.empty with classes := [(0xc5, ⟨false, 0⟩)] }]))
+      (fstoreAll legacyCfg Node.init [blk 0 10 0 Diff.empty]) = false ∧
+    sameNode (thenRevert { newCfg with removeImplicitClasses := true } (fstoreAll newCfg Node.init
+        [blk 0 10 0 Diff.empty, { blk 1 11 10 Diff.empty with classes := [(0xc5, ⟨false, 0⟩)] }]))
+      (fstoreAll newCfg Node.init [blk 0 10 0 Diff.empty]) = false := by
+  decide
+
+/-- `BlockOK.known0` is needed: a Cairo 0 declaration of a class the node has no definition of is
+stored (nothing is registered), and `RevertHead` fails when it looks the class up. Both backends. -/
+theorem cairo0_declaration_without_definition_needed :
+    failsWith (thenRevert legacyCfg (fstoreAll legacyCfg Node.init
+      [blk 0 10 0 Diff.empty, blk 1 11 10 { Diff.empty with declV0 := [0xd7] }])) .classMissing = true ∧
+    failsWith (thenRevert newCfg (fstoreAll newCfg Node.init
+      [blk 0 10 0 Diff.empty, blk 1 11 10 { Diff.empty with declV0 := [0xd7] }])) .classMissing = true := by
+  decide
+
+/-- `BlockOK.migVer` is needed: a block below 0.14.1 that lists a migrated class is stored (the class
+trie leaf changes, the CASM metadata is not touched because `Store` looks at the version), and
+`RevertHead` fails when it tries to un-migrate metadata that was never migrated. Both backends. -/
+theorem early_migration_needed :
+    failsWith (thenRevert legacyCfg (fstoreAll legacyCfg Node.init
+      [{ blk 0 10 0 { Diff.empty with declV1 := [(0xd1, 0xe1)] } with classes := [(0xd1, ⟨true, 0xe2⟩)] },
+       blk 1 11 10 { Diff.empty with migrated := [(0xd1, 0xe2)] }])) .casm = true ∧
+    failsWith (thenRevert newCfg (fstoreAll newCfg Node.init
+      [{ blk 0 10 0 { Diff.empty with declV1 := [(0xd1, 0xe1)] } with classes := [(0xd1, ⟨true, 0xe2⟩)] },
+       blk 1 11 10 { Diff.empty with migrated := [(0xd1, 0xe2)] }])) .casm = true := by
+  decide
+
 /-! ### Non-vacuity -/
 
-theorem legacyCfg_asFound : legacyCfg.asFound := ⟨by decide, fun _ => ⟨rfl, rfl⟩⟩
-theorem newCfg_asFound : newCfg.asFound := ⟨by decide, fun h => by cases h⟩
+example : legacyCfg.asFound := ⟨by decide, fun _ => ⟨rfl, rfl⟩⟩
+example : newCfg.asFound := ⟨by decide, fun h => by cases h⟩
 
 -- a block with a deployment, a storage write to the deployed contract and a nonce is stored, and
 -- reverted exactly, on both backends of the model
@@ -173,35 +272,158 @@ example : sameNode (thenRevert newCfg (fstoreAll newCfg Node.init
     [blk 0 10 0 Diff.empty, blk 1 11 10 { Diff.empty with deployed := [(0x104, 0xc0)], storage := [((0x104, 1), 7), ((1, 2), 3)], nonces := [(0x104, 1)] }]))
     (fstoreAll newCfg Node.init [blk 0 10 0 Diff.empty]) = true := by decide
 
--- the hypotheses are satisfiable: on the empty node (which is `Good`) a block with a deployment
--- and a storage write is acceptable for either backend, and it is stored
-def b0 : Block := blk 0 10 0 { Diff.empty with deployed := [(0x104, 0xc0)], storage := [((0x104, 1), 7)] }
+/-! A deeper instance: a `Good` node at height 0 that has a written system contract, a Cairo 0 and
+a Sierra class with CASM metadata, a deployed contract and an indexed L1 message; and on it a block
+of version 0.14.1 with a class migration, a replaced class, a nonce, a system-contract write, a
+storage slot set to zero and an L1 handler. For one and the same block term: it satisfies `StoreOK`,
+the model stores it, and so all theorems above apply to the result (both backends). -/
 
-theorem b0_storeOK (cfg : Cfg) (hw : cfg.window = 4) : StoreOK cfg Node.init b0 where
+def e0 : Block :=
+  { blk 0 10 0 { Diff.empty with deployed := [(0x104, 0xc0)], storage := [((1, 7), 5), ((0x104, 1), 7)],
+                                  declV0 := [0xc0], declV1 := [(0xd1, 0xe1)] } with
+    txs := [⟨0x77, some 0x99⟩], classes := [(0xc0, ⟨false, 0⟩), (0xd1, ⟨true, 0xe2⟩)] }
+def e1 : Block :=
+  { blk 1 11 10 { Diff.empty with replaced := [(0x104, 0xd1)], nonces := [(0x104, 1)],
+                                   storage := [((1, 7), 6), ((0x104, 1), 0)], migrated := [(0xd1, 0xe2)] } with
+    ver := 2, txs := [⟨0x78, some 0x9a⟩] }
+
+local macro "sorted_tac" : tactic => `(tactic| simp [Sorted, e0, e1, blk, Diff.empty, KOrd.lt])
+
+def nodeOf (r : Except Err Node) : Node := match r with | .ok n => n | .error _ => Node.init
+theorem eq_ok_nodeOf {r : Except Err Node} (h : r.toOption.isSome = true) : r = .ok (nodeOf r) := by
+  cases r with
+  | ok n => rfl
+  | error e => cases h
+
+theorem withRoots_eq (cfg : Cfg) (nd : Node) (b : Block) :
+    ∃ r1 r2, withRoots cfg nd b = { b with oldRoot := r1, newRoot := r2 } := by
+  unfold withRoots
+  dsimp only
+  split
+  · exact ⟨_, _, rfl⟩
+  · exact ⟨_, _, rfl⟩
+
+/-- `StoreOK` does not look at the two roots. -/
+theorem storeOK_withRoots {cfg : Cfg} {nd : Node} {b : Block} (ok : StoreOK cfg nd b) :
+    StoreOK cfg nd (withRoots cfg nd b) := by
+  obtain ⟨r1, r2, h⟩ := withRoots_eq cfg nd b
+  rw [h]
+  exact ⟨⟨⟨ok.block.fresh.hash, ok.block.fresh.txs, ok.block.fresh.msgs⟩, ok.block.casmFresh, ok.block.migVer,
+      ok.block.dDep, ok.block.dRep, ok.block.dNon, ok.block.dSto, ok.block.dDecl, ok.block.dMig, ok.block.dDefs,
+      ok.block.depNotSys, ok.block.known0, ok.block.decl1, ok.block.defsListed⟩,
+    ⟨ok.safe.noEmptySys, ok.safe.noSysEmptied, ok.safe.noDupDeclared, ok.safe.window⟩⟩
+
+theorem sys_cases {a : Nat} (h : isSys a = true) : a = 1 ∨ a = 2 := by
+  simpa [isSys] using h
+
+theorem all_of_get {κ ν : Type} [DecidableEq κ] [KOrd κ] {m : Map κ ν} {P : κ → ν → Prop} (h : ∀ e ∈ m, P e.1 e.2) :
+    ∀ k v, Map.get m k = some v → P k v :=
+  fun k v hg => h (k, v) (mem_keys_of_get hg)
+
+private theorem e0_storeOK (cfg : Cfg) (hw : cfg.window = 4) : StoreOK cfg Node.init e0 where
   block :=
-    { fresh := ⟨rfl, fun t ht => by simp [b0, blk] at ht, fun t ht => by simp [b0, blk] at ht⟩,
-      casmFresh := fun c x h => by simp [b0, blk, Diff.empty, Map.get] at h,
+    { fresh := ⟨rfl, fun t _ => rfl, fun t _ m _ => rfl⟩,
+      casmFresh := fun c x _ => rfl,
       migVer := fun _ => rfl,
-      dDep := ⟨fun e he => by simp at he, trivial⟩, dRep := trivial, dNon := trivial,
-      dSto := ⟨fun e he => by simp at he, trivial⟩, dDecl := trivial, dMig := trivial, dDefs := trivial,
-      depNotSys := fun a c h => (by
-        simp only [b0, blk, Map.get] at h
-        split at h
-        · rename_i ha; subst ha; decide
-        · cases h),
-      depRep := fun a c _ => rfl,
-      nodup := by simp [b0, blk, Diff.empty, Map.keys],
-      known0 := fun c hc => by simp [b0, blk, Diff.empty] at hc,
-      decl1 := fun c h hh => by simp [b0, blk, Diff.empty, Map.get] at hh,
-      defsListed := fun c d h => by simp [b0, blk, Map.get] at h }
+      dDep := by sorted_tac, dRep := by sorted_tac, dNon := by sorted_tac, dSto := by sorted_tac,
+      dDecl := by sorted_tac, dMig := by sorted_tac, dDefs := by sorted_tac,
+      depNotSys := all_of_get (m := e0.diff.deployed) (P := fun a _ => isSys a = false) (by decide),
+      known0 := by decide,
+      decl1 := all_of_get (m := e0.diff.declV1)
+        (P := fun c _ => Map.get Node.init.st.classes c = none ∧ ∃ d, Map.get e0.classes c = some d ∧ d.sierra = true)
+        (by intro e he; simp [e0, blk, Diff.empty] at he; subst he; exact ⟨rfl, _, rfl, rfl⟩),
+      defsListed := all_of_get (m := e0.classes)
+        (P := fun c _ => c ∈ e0.diff.declV0 ++ Map.keys e0.diff.declV1 ∨
+          (cfg.removeImplicitClasses = true ∧ c ∈ e0.diff.deployed.map (·.2)))
+        (by intro e he; simp [e0, blk, Diff.empty] at he; rcases he with rfl | rfl <;> exact Or.inl (by decide)) }
   safe :=
     { noEmptySys := fun _ a _ h => by simp [Node.init, State.empty, Map.get] at h,
       noSysEmptied := fun _ a _ h => by simp [Node.init, State.empty, Map.get] at h,
-      window := Or.inr (by simp [b0, blk, Node.init, hw]) }
+      noDupDeclared := fun _ => by decide,
+      window := Or.inr (by simp [e0, blk, Node.init, hw]) }
 
-example : StoreOK legacyCfg Node.init b0 := b0_storeOK legacyCfg rfl
-example : StoreOK newCfg Node.init b0 := b0_storeOK newCfg rfl
-example : (store legacyCfg Node.init (withRoots legacyCfg Node.init b0)).toOption.isSome = true := by decide
-example : (store newCfg Node.init (withRoots newCfg Node.init b0)).toOption.isSome = true := by decide
+def n1 (cfg : Cfg) : Node := nodeOf (fstore cfg Node.init e0)
+
+theorem n1_stored_legacy : store legacyCfg Node.init (withRoots legacyCfg Node.init e0) = .ok (n1 legacyCfg) :=
+  eq_ok_nodeOf (r := fstore legacyCfg Node.init e0) (by decide)
+theorem n1_stored_new : store newCfg Node.init (withRoots newCfg Node.init e0) = .ok (n1 newCfg) :=
+  eq_ok_nodeOf (r := fstore newCfg Node.init e0) (by decide)
+
+theorem n1_good_legacy : Good legacyCfg (n1 legacyCfg) :=
+  .store .init (storeOK_withRoots (e0_storeOK legacyCfg rfl)) n1_stored_legacy
+theorem n1_good_new : Good newCfg (n1 newCfg) :=
+  .store .init (storeOK_withRoots (e0_storeOK newCfg rfl)) n1_stored_new
+
+private theorem e1_storeOK_legacy : StoreOK legacyCfg (n1 legacyCfg) e1 where
+  block :=
+    { fresh := ⟨by decide, by decide, fun t ht m hm => by
+        simp [e1, blk] at ht; subst ht; simp at hm; subst hm; decide⟩,
+      casmFresh := fun c x h => by simp [e1, blk, Diff.empty, Map.get] at h,
+      migVer := fun h => absurd h (by decide),
+      dDep := by sorted_tac, dRep := by sorted_tac, dNon := by sorted_tac, dSto := by sorted_tac,
+      dDecl := by sorted_tac, dMig := by sorted_tac, dDefs := by sorted_tac,
+      depNotSys := fun a c h => by simp [e1, blk, Diff.empty, Map.get] at h,
+      known0 := by decide,
+      decl1 := fun c h hh => by simp [e1, blk, Diff.empty, Map.get] at hh,
+      defsListed := fun c d h => by simp [e1, blk, Map.get] at h }
+  safe :=
+    { noEmptySys := fun _ a ha hc => by
+        rcases sys_cases ha with rfl | rfl
+        · decide
+        · exact absurd hc (by decide),
+      noSysEmptied := fun _ a ha hc => by
+        rcases sys_cases ha with rfl | rfl
+        · decide
+        · exact absurd hc (by decide),
+      noDupDeclared := fun _ => by decide,
+      window := Or.inr (by decide) }
+
+def n2_legacy : Node := nodeOf (fstore legacyCfg (n1 legacyCfg) e1)
+theorem n2_stored_legacy : store legacyCfg (n1 legacyCfg) (withRoots legacyCfg (n1 legacyCfg) e1) = .ok n2_legacy :=
+  eq_ok_nodeOf (r := fstore legacyCfg (n1 legacyCfg) e1) (by decide)
+
+/-- the instance of `revert_store_id` for this block (its hypotheses are all discharged) -/
+example : revert legacyCfg n2_legacy = .ok (n1 legacyCfg) :=
+  revert_store_id legacyCfg ⟨by decide, fun _ => ⟨rfl, rfl⟩⟩ (n1 legacyCfg) n2_legacy _ n1_good_legacy (storeOK_withRoots e1_storeOK_legacy) n2_stored_legacy
+-- and the node really changed: the migration, the replaced class and the L1 message are there
+example : (Map.get n2_legacy.casm 0xd1).map (·.migratedAt) = some 1 ∧ Map.get n2_legacy.l1msg 0x9a = some 0x78 ∧
+    (Map.get n2_legacy.st.contracts 0x104).map (·.classHash) = some 0xd1 ∧ Map.get n2_legacy.st.storage (0x104, 1) = none := by
+  decide
+
+private theorem e1_storeOK_new : StoreOK newCfg (n1 newCfg) e1 where
+  block :=
+    { fresh := ⟨by decide, by decide, fun t ht m hm => by
+        simp [e1, blk] at ht; subst ht; simp at hm; subst hm; decide⟩,
+      casmFresh := fun c x h => by simp [e1, blk, Diff.empty, Map.get] at h,
+      migVer := fun h => absurd h (by decide),
+      dDep := by sorted_tac, dRep := by sorted_tac, dNon := by sorted_tac, dSto := by sorted_tac,
+      dDecl := by sorted_tac, dMig := by sorted_tac, dDefs := by sorted_tac,
+      depNotSys := fun a c h => by simp [e1, blk, Diff.empty, Map.get] at h,
+      known0 := by decide,
+      decl1 := fun c h hh => by simp [e1, blk, Diff.empty, Map.get] at hh,
+      defsListed := fun c d h => by simp [e1, blk, Map.get] at h }
+  safe :=
+    { noEmptySys := fun _ a ha hc => by
+        rcases sys_cases ha with rfl | rfl
+        · decide
+        · exact absurd hc (by decide),
+      noSysEmptied := fun _ a ha hc => by
+        rcases sys_cases ha with rfl | rfl
+        · decide
+        · exact absurd hc (by decide),
+      noDupDeclared := fun _ => by decide,
+      window := Or.inr (by decide) }
+
+def n2_new : Node := nodeOf (fstore newCfg (n1 newCfg) e1)
+theorem n2_stored_new : store newCfg (n1 newCfg) (withRoots newCfg (n1 newCfg) e1) = .ok n2_new :=
+  eq_ok_nodeOf (r := fstore newCfg (n1 newCfg) e1) (by decide)
+
+/-- the instance of `revert_store_id` for this block (its hypotheses are all discharged) -/
+example : revert newCfg n2_new = .ok (n1 newCfg) :=
+  revert_store_id newCfg ⟨by decide, fun h => by cases h⟩ (n1 newCfg) n2_new _ n1_good_new (storeOK_withRoots e1_storeOK_new) n2_stored_new
+-- and the node really changed: the migration, the replaced class and the L1 message are there
+example : (Map.get n2_new.casm 0xd1).map (·.migratedAt) = some 1 ∧ Map.get n2_new.l1msg 0x9a = some 0x78 ∧
+    (Map.get n2_new.st.contracts 0x104).map (·.classHash) = some 0xd1 ∧ Map.get n2_new.st.storage (0x104, 1) = none := by
+  decide
 
 end Juno.C04.Props
